@@ -53,6 +53,26 @@ def _z3_consts(f):
     return out
 
 
+def _canon(term, skip):
+    """(canonical text, constants in order of first occurrence) of a term: constants are renamed c0, c1, .. by first occurrence, so that
+    the same expression over differently named variables (a parameter in the code, a bound variable in an axiom) gets the same name"""
+    cs = [c for c in _z3_consts(term) if str(c) not in skip]
+    by_name = {}
+    for c in cs:
+        by_name.setdefault(str(c), c)
+    text = term.sexpr()
+    import re as _re
+    pos = []
+    for nm in by_name:
+        m = _re.search(r'(?<![\w!.|])' + _re.escape(nm if _re.fullmatch(r'[\w!.]+', nm) else '|' + nm + '|') + r'(?![\w!.|])', text)
+        pos.append((m.start() if m else 10 ** 9, nm))
+    order = [nm for _, nm in sorted(pos)]
+    for i, nm in enumerate(order):
+        quoted = nm if _re.fullmatch(r'[\w!.]+', nm) else '|' + nm + '|'
+        text = _re.sub(r'(?<![\w!.|])' + _re.escape(quoted) + r'(?![\w!.|])', f'@c{i}:{by_name[nm].sort()}', text)
+    return text, [by_name[nm] for nm in order]
+
+
 class Obligation:
     def __init__(self, name, hyps, goal, kind, line, fn, expect='proved', meta=None):
         self.name = name
@@ -573,6 +593,22 @@ class Engine:
             while isinstance(v.ty, TOpt):
                 v = V(v.ty.inner, v.ty.val(v.t))
             return v
+        if name == 'psum':
+            # psum(lambda x: g(x), seq, k): the sum of g over the first k elements of seq (the fold that sum(g(x) for x in seq) denotes)
+            lam = n.args[0]
+            src = ev.ev(n.args[1], ctx)
+            while isinstance(src.ty, TOpt):
+                src = V(src.ty.inner, src.ty.val(src.t))
+            seq = self.as_sequence(src, ctx)
+            if seq is None or not isinstance(lam, ast.Lambda):
+                raise OutOfSubset('psum form')
+            k_ = to_int(ev.ev(n.args[2], ctx))
+            return self.fold_sum(seq, lam.args.args[0].arg, lam.body, k_, ctx, ev)
+        if name == 'items':
+            v = ev.ev(n.args[0], ctx)
+            while isinstance(v.ty, TOpt):
+                v = V(v.ty.inner, v.ty.val(v.t))
+            return self.items_of(v, ctx)
         if name == 'same':
             # frame equality: the very same value (for lists / dicts: same array and length, not just equal elements) -- what
             # "this field was not touched" means; stronger than Python's ==
@@ -585,6 +621,8 @@ class Engine:
         if name == 'set_add':
             s = ev.ev(n.args[0], ctx)
             x = ev.ev(n.args[1], ctx)
+            if z3.is_K(s.t) and s.ty.elem != x.ty and x.ty in (INT, STR):
+                s = coerce(s, TSet(x.ty))       # `set()` literal: typed by its first element
             return V(s.ty, z3.Store(s.t, coerce(x, s.ty.elem).t, True))
         if name == 'sorted_set':
             return self.sorted_of_set(ev.ev(n.args[0], ctx), ctx)
@@ -633,6 +671,8 @@ class Engine:
             return mk_int(len(v.ty.elems))
         if isinstance(v.ty, TDict):
             return self.dict_len(v, ctx)
+        if isinstance(v.ty, TAbs) and v.ty.name in getattr(self, 'opaque_lists', ()):
+            return V(INT, list_len(self.items_of(v, ctx)))
         if isinstance(v.ty, TRec):
             q = self.method_qual(v.ty, '__len__')
             if q:
@@ -769,6 +809,29 @@ class Engine:
                 return V(STR, f_(recv.t, x.t))
         raise OutOfSubset(f'.join on {recv.ty}')
 
+    def meth_get(self, recv, n, ctx, ev):
+        if isinstance(recv.ty, TDict) and 1 <= len(n.args) <= 2:
+            k = coerce(ev.ev(n.args[0], ctx), recv.ty.k)
+            has = z3.Select(recv.ty.has(recv.t), k.t)
+            val = V(recv.ty.v, z3.Select(recv.ty.at(recv.t), k.t))
+            if len(n.args) == 2:
+                d = ev.ev(n.args[1], ctx)
+                ty = join_types(val.ty, d.ty)
+                return V(ty, z3.If(has, coerce(val, ty).t, coerce(d, ty).t))
+            ot = TOpt(recv.ty.v)
+            return V(ot, z3.If(has, ot.some(val.t), ot.none()))
+        raise OutOfSubset(f'.get on {recv.ty}')
+
+    def meth_count(self, recv, n, ctx, ev):
+        if recv.ty == STR and len(n.args) == 1:
+            x = ev.ev(n.args[0], ctx)
+            if x.ty == STR:
+                f_ = z3.Function('str_count', z3.StringSort(), z3.StringSort(), z3.IntSort())
+                ctx.assume(f_(recv.t, x.t) >= 0)
+                self.libs_used.add('LC-COUNT: s.count(sub) is a non-negative function of (s, sub)')
+                return V(INT, f_(recv.t, x.t))
+        raise OutOfSubset(f'.count on {recv.ty}')
+
     def meth_copy(self, recv, n, ctx, ev):
         if isinstance(recv.ty, (TDict, TList, TSet)) and not n.args:
             self.libs_used.add('LC-DEEPCOPY: deepcopy/copy return an equal value (value semantics; freshness is C08\'s frame claim)')
@@ -871,38 +934,70 @@ class Engine:
                                                  z3.Select(lt.arr(r), k) == tt.mk(z3.Select(a.ty.arr(a.t), k), z3.Select(b.ty.arr(b.t), k)))))
         return V(lt, r)
 
-    def sum_over_opaque(self, gen, ctx, ev):
-        """sum(g(x) for x in L) where L is an opaque list (e.g. a list of Mod objects): SUMOVER_<g>(L, ...), a function of the list
-        value and of whatever else g mentions (g must only call pure contracts)"""
-        g = gen.generators[0]
-        if len(gen.generators) != 1 or g.ifs or not isinstance(g.target, ast.Name) or not self._elt_calls_pure(gen.elt):
-            return None
-        src = ev.unwrap_opt(ev.ev(g.iter, ctx), ctx)
-        if not isinstance(src.ty, TAbs):
-            return None
-        et = TAbs(src.ty.name + '_item')
-        e = z3.Const('e!sum', et.sort())
+    # ---- sequences that can be folded: lists, opaque lists (through their item view), strings (characters)
+    def items_of(self, v, ctx):
+        """an opaque list value (e.g. ModList) seen as the list of its opaque items: ITEMS(v), a function of the value"""
+        lt = TList(TAbs(v.ty.name + '_item'))
+        r = z3.Function('items_' + v.ty.name, v.ty.sort(), lt.sort())(v.t)
+        ctx.assume(lt.n(r) >= 0)
+        return V(lt, r)
+
+    def as_sequence(self, v, ctx):
+        """-> (element type, length term, at(k) -> element term, key term identifying the sequence) or None"""
+        if isinstance(v.ty, TAbs) and v.ty.name in getattr(self, 'opaque_lists', ()):
+            v = self.items_of(v, ctx)
+        if isinstance(v.ty, TList):
+            return v.ty.elem, list_len(v), (lambda k: z3.Select(v.ty.arr(v.t), k)), v.t
+        if v.ty == STR:
+            return STR, z3.Length(v.t), (lambda k: z3.SubString(v.t, k, 1)), v.t
+        return None
+
+    def fold_sum(self, seq, var, body, upto, ctx, ev):
+        """FOLD_<g>(sequence, c1..cn, k) = g(seq[0]) + .. + g(seq[k-1]) for the expression g = body(var): a spec function named by the
+        expression, defined by FOLD(.., 0) = 0 and FOLD(.., k+1) = FOLD(.., k) + g(seq[k]); a KeyError / IndexError inside g is raised
+        if it is raised for some element"""
+        et, ln, at, key = seq
+        e = z3.Const('e!fold', et.sort())
         saved = dict(ctx.env)
-        ctx.env[g.target.id] = V(et, e)
+        ctx.env[var] = V(et, e)
         n_as, n_ex = len(ctx.assumes), len(ctx.excs)
-        elt = ev.ev(gen.elt, ctx)
-        self._close_assumes(ctx, n_as, [e], n_ex)
+        saved_g = list(ctx.guards)
+        elt = ev.ev(body, ctx)
+        ctx.guards[:] = saved_g
         ctx.env.clear()
         ctx.env.update(saved)
-        if elt.ty not in (INT, REAL):
-            return None
+        if elt.ty not in (INT, REAL, BOOL):
+            raise OutOfSubset(f'sum of {elt.ty}')
+        rt = REAL if elt.ty == REAL else INT
+        g_ = to_real(elt) if rt == REAL else to_int(elt)
+        kk = z3.Const('k!fold', z3.IntSort())
+        # exceptions inside g: raised iff raised for some element of the sequence
+        for i_ in range(n_ex, len(ctx.excs)):
+            cls, cond, line = ctx.excs[i_]
+            if 'e!fold' in {str(c) for c in _z3_consts(cond)}:
+                ctx.excs[i_] = (cls, z3.Exists([kk], z3.And(0 <= kk, kk < ln, z3.substitute(cond, (e, at(kk))))), line)
+        # assumptions made while evaluating g hold for every element
+        self._close_assumes(ctx, n_as, [e])
         import hashlib
-        cs = sorted({str(c): c for c in _z3_consts(elt.t) if str(c) != 'e!sum'}.items())
-        nm = 'SUMOVER_' + hashlib.sha1(elt.t.sexpr().encode()).hexdigest()[:12]
-        f_ = z3.Function(nm, *([src.ty.sort()] + [c.sort() for _, c in cs] + [elt.ty.sort()]))
-        self.libs_used.add('LC-SUMOVER: sum(g(x) for x in L) over an opaque list L is a function of the list value (g pure)')
-        return V(elt.ty, f_(src.t, *[c for _, c in cs]))
+        text_, cargs = _canon(g_, ('e!fold',))
+        nm = 'FOLD_' + hashlib.sha1((text_ + '|' + str(et)).encode()).hexdigest()[:12]
+        f_ = z3.Function(nm, *([key.sort()] + [c.sort() for c in cargs] + [z3.IntSort(), rt.sort()]))
+        if getattr(ctx, 'binders', 0) == 0:
+            zero = z3.RealVal(0) if rt == REAL else z3.IntVal(0)
+            ctx.assume(f_(key, *cargs, z3.IntVal(0)) == zero)
+            ctx.assume(z3.ForAll([kk], z3.Implies(kk >= 0, f_(key, *cargs, kk + 1) == f_(key, *cargs, kk) + z3.substitute(g_, (e, at(kk))))))
+        self.libs_used.add('SPEC-FOLD: sum(g(x) for x in seq) is the left fold FOLD(seq,0)=0, FOLD(seq,k+1)=FOLD(seq,k)+g(seq[k]) (A-REAL: exact addition)')
+        return V(rt, f_(key, *cargs, upto))
 
     def bi_sum(self, n, ctx, ev):
         if len(n.args) == 1 and isinstance(n.args[0], ast.GeneratorExp):
-            r = self.sum_over_opaque(n.args[0], ctx, ev)
-            if r is not None:
-                return r
+            gen = n.args[0]
+            g = gen.generators[0]
+            if len(gen.generators) == 1 and not g.ifs and isinstance(g.target, ast.Name) and self._elt_calls_pure(gen.elt):
+                src = ev.unwrap_opt(ev.ev(g.iter, ctx), ctx)
+                seq = self.as_sequence(src, ctx)
+                if seq is not None:
+                    return self.fold_sum(seq, g.target.id, gen.elt, seq[1], ctx, ev)
         v = ev.ev(n.args[0], ctx)
         if isinstance(v.ty, TList) and v.ty.elem in (INT, REAL):
             return self.list_sum(v, list_len(v), ctx)
@@ -1192,10 +1287,10 @@ class Engine:
             names = _consts_of(g_)
             if str(k) not in names:
                 import hashlib
-                cs = sorted({str(c): c for c in _z3_consts(g_) if str(c) != 'e!map'}.items())
-                nm = 'MAPF_' + hashlib.sha1((g_.sexpr() + '|' + str(lt)).encode()).hexdigest()[:12]
-                f_ = z3.Function(nm, *([src.ty.sort()] + [c.sort() for _, c in cs] + [lt.sort()]))
-                R = f_(src.t, *[c for _, c in cs])
+                text_, cargs_ = _canon(g_, ('e!map',))
+                nm = 'MAPF_' + hashlib.sha1((text_ + '|' + str(lt)).encode()).hexdigest()[:12]
+                f_ = z3.Function(nm, *([src.ty.sort()] + [c.sort() for c in cargs_] + [lt.sort()]))
+                R = f_(src.t, *cargs_)
         if R is None:
             R = fresh('lcomp', lt.sort())
         ctx.assume(lt.n(R) == ln)
